@@ -37,8 +37,13 @@ def XOp.AssignNoSize (p : Pool St) : XOp → Prop
   | .aAssign d lhs rhs => lhs ≠ rhs ∧ (p d).sizes.constSize rhs = none ∧ (p d).sizes.constSize lhs = none
   | _ => False
 
-theorem absS_congr {st st' : St} (e : st = st') (h : st.base.Sorted) (h' : st'.base.Sorted) :
-    absS st h = absS st' h' := by subst e; rfl
+/-- the other branch where the code is not the generic model: a join / widening with an operand
+    whose base is bottom returns the other operand unchanged (the generic model joins the size
+    environments, which is sound but loses the sizes of the other operand) -/
+def XOp.JoinBottom (p : Pool St) : XOp → Prop
+  | .join _ a b => (p a).isBottom = true ∨ (p b).isBottom = true
+  | .widen _ a b => (p a).isBottom = true ∨ (p b).isBottom = true
+  | _ => False
 
 /-- the pool of the generic model that corresponds to a pool of exact values -/
 def absPool (p : Pool St) (hI : ∀ i, Inv (p i)) : Pool (Smash.St itvBase) := fun j => absS (p j) (hI j).2
@@ -61,7 +66,7 @@ theorem refines_set (p : Pool St) (hI : ∀ i, Inv (p i)) (d : Nat) (v : St) (gv
     satisfy the invariant, gives (through `absS`) exactly the pool the generic operation gives —
     except `array_assign` in the branch `AssignNoSize` -/
 theorem refines (esz : Nat → Nat) (o : XOp) (g : Smash.Op) (hg : o.toOp = some g) (p : Pool St)
-    (hI : ∀ i, Inv (p i)) (hk : ¬ o.AssignNoSize p) :
+    (hI : ∀ i, Inv (p i)) (hk : ¬ o.AssignNoSize p) (hj : ¬ o.JoinBottom p) :
     ∃ hs : ∀ i, Inv ((o.toStep esz).run p i),
       ∀ i, absS ((o.toStep esz).run p i) (hs i).2 = (g.toStep (Bs := itvBase) esz).run (absPool p hI) i := by
   cases o with
@@ -73,10 +78,26 @@ theorem refines (esz : Nat → Nat) (o : XOp) (g : Smash.Op) (hg : o.toOp = some
     exact refines_set p hI d (p s) _ (hI s) rfl
   | join d a b =>
     simp only [XOp.toOp, Option.some.injEq] at hg; subst hg
-    exact refines_set p hI d _ _ (inv_join (hI a) (hI b)) (abs_join (hI a) (hI b))
+    have na : (p a).isBottom = false := by
+      cases h : (p a).isBottom with
+      | false => rfl
+      | true => exact absurd (Or.inl h) hj
+    have nb : (p b).isBottom = false := by
+      cases h : (p b).isBottom with
+      | false => rfl
+      | true => exact absurd (Or.inr h) hj
+    exact refines_set p hI d _ _ (inv_join (hI a) (hI b)) (abs_join (hI a) (hI b) na nb)
   | widen d a b =>
     simp only [XOp.toOp, Option.some.injEq] at hg; subst hg
-    exact refines_set p hI d _ _ (inv_widen (hI a) (hI b)) (abs_widen (hI a) (hI b))
+    have na : (p a).isBottom = false := by
+      cases h : (p a).isBottom with
+      | false => rfl
+      | true => exact absurd (Or.inl h) hj
+    have nb : (p b).isBottom = false := by
+      cases h : (p b).isBottom with
+      | false => rfl
+      | true => exact absurd (Or.inr h) hj
+    exact refines_set p hI d _ _ (inv_widen (hI a) (hI b)) (abs_widen (hI a) (hI b) na nb)
   | assign d x e =>
     simp only [XOp.toOp, Option.some.injEq] at hg; subst hg
     exact refines_set p hI d _ _ (inv_assign (hI d) x e) (abs_assign (hI d) x e)
@@ -117,14 +138,36 @@ theorem step_soundInv (esz : Nat → Nat) (o : XOp) (hm : o.isMeet = false) :
   | copy d s => trivial
   | join d a b =>
     intro x y hx hy
-    refine ⟨inv_join hx hy, fun s h => ⟨(inv_join hx hy).2, ?_⟩⟩
-    rw [abs_join hx hy]
-    exact Smash.sJoin_sound (h.elim (fun ⟨_, h1⟩ => Or.inl h1) (fun ⟨_, h1⟩ => Or.inr h1))
+    refine ⟨inv_join hx hy, fun s h => ?_⟩
+    cases na : x.isBottom with
+    | true =>
+      rw [join_bottom_l na]
+      exact h.elim (fun h1 => absurd (γx_at h1).1 (by simp [na])) id
+    | false =>
+      cases nb : y.isBottom with
+      | true =>
+        rw [join_bottom_r na nb]
+        exact h.elim id (fun h1 => absurd (γx_at h1).1 (by simp [nb]))
+      | false =>
+        refine ⟨(inv_join hx hy).2, ?_⟩
+        rw [abs_join hx hy na nb]
+        exact Smash.sJoin_sound (h.elim (fun ⟨_, h1⟩ => Or.inl h1) (fun ⟨_, h1⟩ => Or.inr h1))
   | widen d a b =>
     intro x y hx hy
-    refine ⟨inv_widen hx hy, fun s h => ⟨(inv_widen hx hy).2, ?_⟩⟩
-    rw [abs_widen hx hy]
-    exact Smash.sWiden_sound (h.elim (fun ⟨_, h1⟩ => Or.inl h1) (fun ⟨_, h1⟩ => Or.inr h1))
+    refine ⟨inv_widen hx hy, fun s h => ?_⟩
+    cases na : x.isBottom with
+    | true =>
+      rw [widen_bottom_l na]
+      exact h.elim (fun h1 => absurd (γx_at h1).1 (by simp [na])) id
+    | false =>
+      cases nb : y.isBottom with
+      | true =>
+        rw [widen_bottom_r na nb]
+        exact h.elim id (fun h1 => absurd (γx_at h1).1 (by simp [nb]))
+      | false =>
+        refine ⟨(inv_widen hx hy).2, ?_⟩
+        rw [abs_widen hx hy na nb]
+        exact Smash.sWiden_sound (h.elim (fun ⟨_, h1⟩ => Or.inl h1) (fun ⟨_, h1⟩ => Or.inr h1))
   | assign d x e =>
     intro st hI
     refine ⟨inv_assign hI x e, fun s s' ⟨_, hg⟩ hr => ⟨(inv_assign hI x e).2, ?_⟩⟩
